@@ -152,6 +152,12 @@ def gen_pods(rng, s, revnames):
             name = rng.choice(["web-0%d" % i, "web-x%d" % i, "other-%d" % i, "web-%d9999999999" % (i + 1), "web--%d" % i])
         pods.append(mkpod(i, rv, phase, ready, term, owner, match, name=name, claims=claims, tmpl=rng.choice([1, 2, 3]),
                           namelabel=nl, vols=vols))
+    if rng.random() < 0.03:
+        # a member at the edge of the ordinal range (int32): somebody created a pod with that name and the set's labels
+        o = rng.choice([2147483647, 2147483647, 2147483646])
+        rv = rng.choice(revnames) if revnames else ""
+        pods.append(mkpod(o, rv, rng.choice(["Running", "Running", "Pending", "Failed"]), rng.random() < 0.4, rng.random() < 0.1,
+                          ME if rng.random() < 0.7 else None, True, claims=claims, tmpl=rng.choice([1, 2, 3])))
     return pods
 
 
